@@ -1960,6 +1960,14 @@ impl Db {
 		}
 	}
 
+	/// Hashed form of `key` in column `col` (what the index and the value tables store).
+	pub fn verif_hash_key(&self, col: ColId, key: &[u8]) -> Key {
+		match &self.inner.columns[col as usize] {
+			Column::Hash(c) => c.hash_key(key),
+			Column::Tree(_) => Key::default(),
+		}
+	}
+
 	/// Enact a single log record (the stepping API `enact_logs` enacts all of them).
 	pub fn verif_enact_one(&self) -> Result<bool> {
 		self.inner.enact_logs(false)
